@@ -461,6 +461,14 @@ class Evaluator:
         if fname == 'len' and len(targs) == 1 and \
                 isinstance(targs[0], (tuple, bytes, str, frozenset)):
             return len(targs[0])
+        if fname == 'range' and 1 <= len(targs) <= 3 and all(
+                isinstance(a, int) and not isinstance(a, bool)
+                for a in targs):
+            self.calls.pop()
+            r = range(*targs)
+            if len(r) > 100000:
+                raise NotEvaluable('range too large for the evaluator')
+            return tuple(r)
         if fname in ('any', 'all') and len(targs) == 1 and \
                 isinstance(targs[0], (tuple, list, frozenset)):
             self.calls.pop()
